@@ -422,13 +422,15 @@ class World:
         np.random.randn = randn
         np.random.seed = seed
 
-    def to_sparse(self, dense, explicit_zeros=False):
+    def to_sparse(self, dense, explicit_zeros=False, int_dtype=False):
         from scipy import sparse
         cls = self.resolve("utils.SparseQuaternionMatrix")
         f = quaternion.as_float_array(dense)
         parts = []
         for c in range(4):
             comp = np.ascontiguousarray(f[..., c])
+            if int_dtype and np.all(comp == np.round(comp)):
+                comp = comp.astype(np.int64)      # integer-valued components stored as integers
             if explicit_zeros:
                 # a legal CSR layout in which every entry is stored, zeros included
                 m, n = comp.shape
@@ -445,7 +447,8 @@ class World:
             return items if spec["gen"] == "list" else tuple(items)
         v = gens.build(spec)
         if gens.is_sparse_spec(spec):
-            v = self.to_sparse(v, explicit_zeros=bool(spec.get("explicit_zeros")))
+            v = self.to_sparse(v, explicit_zeros=bool(spec.get("explicit_zeros")),
+                               int_dtype=bool(spec.get("int_dtype")))
         lay = spec.get("layout") if isinstance(spec, dict) else None
         if lay and isinstance(v, np.ndarray) and v.ndim == 2:
             # memory layouts a caller may legitimately hand over (the pristine world builds
@@ -603,11 +606,22 @@ class Executor:
         # a client that keeps one buffer and refills it in place between calls: the SAME
         # ndarray object is handed to the library again with new contents
         for j, sp in enumerate(step.get("args", [])):
+            if isinstance(sp, dict) and sp.get("buf") and _is_sqm(args[j]):
+                # the client keeps ONE sparse quaternion object and replaces its components
+                key = (step.get("client"), sp["buf"])
+                old = self.buffers.get(key)
+                if old is not None and _is_sqm(old) and tuple(old.shape) == tuple(args[j].shape):
+                    for comp in ("real", "i", "j", "k"):
+                        setattr(old, comp, getattr(args[j], comp))
+                    args[j] = old
+                else:
+                    self.buffers[key] = args[j]
+                continue
             if isinstance(sp, dict) and sp.get("buf") and isinstance(args[j], np.ndarray):
                 key = (step.get("client"), sp["buf"])
                 old = self.buffers.get(key)
-                if old is not None and old.shape == args[j].shape and old.dtype == args[j].dtype \
-                        and old.flags.writeable:
+                if old is not None and isinstance(old, np.ndarray) and old.shape == args[j].shape \
+                        and old.dtype == args[j].dtype and old.flags.writeable:
                     np.copyto(old, args[j])
                     args[j] = old
                 else:
@@ -703,6 +717,32 @@ class Executor:
                     rec["exc"] = type(e).__name__
                     rec["exc_msg"] = str(e)[:200]
                 rec["rng_after"] = rng_digest(np.random.get_state())
+            elif k == "mutate":
+                # the caller overwrites (in place) a value the library returned earlier - it is the
+                # caller's value; nothing inside the library may depend on it any more
+                rec = {"i": i, "k": "mutate", "ok": "ret", "seq_invoke": self.seq}
+                self.seq += 1
+                v = self.values.get(step["of"])
+                targets = [v] if isinstance(v, np.ndarray) else [x for x in (v if isinstance(v, (tuple, list)) else [])
+                                                                   if isinstance(x, np.ndarray)]
+                n_mut = 0
+                for arr in targets:
+                    if arr.flags.writeable and arr.size:
+                        try:
+                            if arr.dtype == np.quaternion:
+                                fl = quaternion.as_float_array(arr)
+                                fl *= 3.0
+                                fl += 0.25
+                            elif arr.dtype.kind == "f":
+                                arr *= 3.0
+                                arr += 0.25
+                            n_mut += 1
+                        except (ValueError, TypeError):
+                            pass
+                rec["mutated"] = n_mut
+                # the recorded digest of that earlier value no longer applies
+                if n_mut and 0 <= step["of"] < len(self.recs):
+                    self.recs[step["of"]]["client_mutated"] = True
             elif k == "setattr":
                 # a client re-configures a shared solver between calls (plain attribute write);
                 # the reference for later calls is a fresh object constructed with the new value
